@@ -202,9 +202,19 @@ func runC09(c *Ctx) {
 	if ml := c.MustFunc("C09-R4", "internal/config.MatchLabel.isMatching"); ml != nil {
 		ok := false
 		ast.Inspect(ml.Decl.Body, func(n ast.Node) bool {
+			var scanned ast.Expr
 			if rs, isR := n.(*ast.RangeStmt); isR {
-				if sel, isSel := rs.X.(*ast.SelectorExpr); isSel && sel.Sel.Name == "Items" {
-					if call, isCall := sel.X.(*ast.CallExpr); isCall && isCallTo(info, call, "internal/discovery.Entry.Labels") {
+				scanned = rs.X
+			}
+			// the scan written as slices.ContainsFunc / IndexFunc over the same list
+			if call, isCall := n.(*ast.CallExpr); isCall && len(call.Args) == 2 {
+				if fn := Callee(info, call); fn != nil && fn.Pkg() != nil && fn.Pkg().Path() == "slices" && (fn.Name() == "ContainsFunc" || fn.Name() == "IndexFunc") {
+					scanned = call.Args[0]
+				}
+			}
+			if scanned != nil {
+				if sel, isSel := ast.Unparen(scanned).(*ast.SelectorExpr); isSel && sel.Sel.Name == "Items" {
+					if call, isCall := ast.Unparen(sel.X).(*ast.CallExpr); isCall && isCallTo(info, call, "internal/discovery.Entry.Labels") {
 						ok = true
 					}
 				}
@@ -246,35 +256,7 @@ func runC09(c *Ctx) {
 		}
 	}
 	if el := c.MustFunc("C09-R4", "internal/discovery.Entry.Labels"); el != nil {
-		dinfo := el.Pkg.TypesInfo
-		sws := findSwitches(el.Decl.Body, nil)
-		if len(sws) != 1 {
-			c.Undecided("C09-R4", "Entry.Labels:switch", el.Decl.Pos(), "expected one switch")
-		} else {
-			for i, st := range sws[0].Body.List {
-				cc := st.(*ast.CaseClause)
-				mentions := false
-				ast.Inspect(cc, func(n ast.Node) bool {
-					if sel, ok := n.(*ast.SelectorExpr); ok && fieldSel(dinfo, sel, "internal/parser.Group", "Labels") {
-						mentions = true
-					}
-					return true
-				})
-				c.Check(mentions, "C09-R4", "Entry.Labels:case#"+itoa(i+1)+" considers Group.Labels", cc.Pos(), "group labels merged", "a case of Entry.Labels ignores group-level labels")
-			}
-			// MergeMaps(group, rule): rule labels override group labels
-			nMerge, good := 0, 0
-			ast.Inspect(el.Decl.Body, func(n ast.Node) bool {
-				if call, ok := n.(*ast.CallExpr); ok && isCallTo(dinfo, call, "internal/parser.MergeMaps") && len(call.Args) == 2 {
-					nMerge++
-					if fieldSel(dinfo, call.Args[0], "internal/parser.Group", "Labels") && !fieldSel(dinfo, call.Args[1], "internal/parser.Group", "Labels") {
-						good++
-					}
-				}
-				return true
-			})
-			c.Check(nMerge == 2 && good == 2, "C09-R4", "Entry.Labels:MergeMaps(group, rule)", el.Decl.Pos(), "rule labels override group labels", "MergeMaps argument order changed ("+itoa(good)+"/"+itoa(nMerge)+")")
-		}
+		c09EntryLabelsSemantics(c, el)
 	}
 
 	// ---- R5 ----
@@ -720,4 +702,97 @@ func c09EveryRuleBlockParsed(c *Ctx, R string) {
 	}
 	c.Check(why == "", R, "GetChecksForEntry:every rule{} block is parsed for the entry", loop.Pos(), "unconditional parseRule",
 		why+": some rule{} blocks are never turned into checks for some entries, whatever their match/ignore blocks say (a shortcut that guesses the outcome of the match from the entry's state skips blocks that do select it)")
+}
+
+// c09EntryLabelsSemantics runs discovery.Entry.Labels (minieval.go) on every
+// combination of {alerting rule with labels, alerting rule without, recording
+// rule with labels, recording rule without} × {no group, group without labels,
+// group with labels} and compares what it hands back with the documented
+// meaning: the rule's labels merged over the group's (MergeMaps(group, rule),
+// the rule overriding), the rule's alone when the group has none, the group's
+// alone when the rule has none, nothing otherwise. parser.MergeMaps is the
+// oracle; the item lists are symbols.
+func c09EntryLabelsSemantics(c *Ctx, el *FuncInfo) {
+	R := "C09-R4"
+	info := el.Pkg.TypesInfo
+	if el.Decl.Recv == nil || len(el.Decl.Recv.List) != 1 || len(el.Decl.Recv.List[0].Names) != 1 {
+		c.Undecided(R, "Entry.Labels:receiver", el.Decl.Pos(), "no named receiver")
+		return
+	}
+	recv := info.Defs[el.Decl.Recv.List[0].Names[0]]
+	sig := el.Obj.Type().(*types.Signature)
+	rec := func(kv ...interface{}) mval {
+		m := map[string]mval{}
+		for i := 0; i+1 < len(kv); i += 2 {
+			m[kv[i].(string)] = kv[i+1].(mval)
+		}
+		return mval{k: mvRec, rec: m}
+	}
+	nilV := mval{k: mvNil}
+	labels := func(tag string) mval { return rec("Key", mStr(tag+".key"), "Items", mStr(tag)) }
+	type shape struct {
+		name           string
+		alert, record  mval
+		ruleTag        string // "" when the rule has no labels
+		group          mval
+		groupHasLabels bool
+	}
+	var shapes []shape
+	for _, g := range []struct {
+		name string
+		v    mval
+		has  bool
+	}{{"no group", nilV, false}, {"group without labels", rec("Labels", nilV), false}, {"group with labels", rec("Labels", labels("G")), true}} {
+		shapes = append(shapes,
+			shape{"alerting rule with labels, " + g.name, rec("Labels", labels("A")), nilV, "A", g.v, g.has},
+			shape{"alerting rule without labels, " + g.name, rec("Labels", nilV), nilV, "", g.v, g.has},
+			shape{"recording rule with labels, " + g.name, nilV, rec("Labels", labels("R")), "R", g.v, g.has},
+			shape{"recording rule without labels, " + g.name, nilV, rec("Labels", nilV), "", g.v, g.has},
+		)
+	}
+	for _, sh := range shapes {
+		wantItems, wantKey := "", ""
+		switch {
+		case sh.ruleTag != "" && sh.groupHasLabels:
+			wantItems, wantKey = "merge(G,"+sh.ruleTag+")", sh.ruleTag+".key"
+		case sh.ruleTag != "":
+			wantItems, wantKey = sh.ruleTag, sh.ruleTag+".key"
+		case sh.groupHasLabels:
+			wantItems, wantKey = "G", "G.key"
+		}
+		ev := &miniEval{info: info, prog: c.P, env: map[types.Object]mval{}}
+		ev.env[recv] = rec("Rule", rec("AlertingRule", sh.alert, "RecordingRule", sh.record), "Group", sh.group)
+		// a named result starts as the zero record
+		if sig.Results().Len() == 1 && sig.Results().At(0).Name() != "" {
+			ev.env[sig.Results().At(0)] = mval{k: mvRec, rec: map[string]mval{}}
+		}
+		ev.oracle = func(ev *miniEval, call *ast.CallExpr) (mval, bool) {
+			if isCallTo(info, call, "internal/parser.MergeMaps") && len(call.Args) == 2 {
+				a, b := ev.expr(call.Args[0]), ev.expr(call.Args[1])
+				if a.k != mvRec || b.k != mvRec {
+					ev.fail("MergeMaps is handed a map that is not there")
+					return mval{}, true
+				}
+				return mval{k: mvRec, rec: map[string]mval{"Items": mStr("merge(" + a.rec["Items"].s + "," + b.rec["Items"].s + ")"), "Key": b.rec["Key"]}}, true
+			}
+			return mval{}, false
+		}
+		ctl := ev.block(el.Decl.Body.List)
+		key := "Entry.Labels:" + sh.name
+		if ev.undec != "" || ctl.kind != 'r' {
+			u := ev.undec
+			if u == "" {
+				u = "no result"
+			}
+			c.Undecided(R, key, el.Decl.Pos(), "Entry.Labels could not be evaluated: "+u)
+			continue
+		}
+		res := ctl.ret
+		if res.k != mvRec && sig.Results().Len() == 1 {
+			res = ev.env[sig.Results().At(0)] // bare return of the named result
+		}
+		gotItems, gotKey := res.rec["Items"].s, res.rec["Key"].s
+		c.Check(gotItems == wantItems && gotKey == wantKey, R, key, el.Decl.Pos(), "items="+wantItems,
+			"Entry.Labels() hands back items `"+gotItems+"` under key `"+gotKey+"`, documented: items `"+wantItems+"` under key `"+wantKey+"` (G = group labels, A/R = the rule's own; merge(G,x) = rule labels over group labels): `label` conditions of match/ignore blocks and every check that reads labels then see the wrong label set")
+	}
 }
